@@ -159,6 +159,8 @@ def validate_shards(module, shard_paths, workdir, env_extra=None, cfg=None, drif
             for m in re.finditer(r'^"FAIL (.*)"$', out, re.M):
                 raw = m.group(1).encode().decode("unicode_escape")
                 ident, prop, verdict = json.loads(raw)
+                if verdict and str(verdict[0]).startswith("TOOL."):
+                    raise ToolError(f"the trace itself is inconsistent ({verdict[0]}) at event {ident} of {path}: a harness defect, not a verdict")
                 fails.append({"shard": path, "id": ident, "prop": prop, "verdict": verdict, "regen": dict(regen, module=module) if regen else None})
             per.append(dt)
     return fails, {"events": tot_events, "states": states, "transitions": trans, "tlc_wall_max_s": max(per) if per else 0}
